@@ -283,6 +283,15 @@ class Session(object):
             bio = io.BytesIO()
             r = self.run(lambda d: d.pull(device_path, bio, **kw))
             self.pulled = bio.getvalue()
+        elif dest == 'newdir':
+            # a destination whose parent directories do not exist: a refused pull must not create them either
+            top = os.path.join(tmpdir(), 'nd')
+            shutil.rmtree(top, True)
+            path = os.path.join(top, 'sub', 'pulled.bin')
+            r = self.run(lambda d: d.pull(device_path, path, **kw))
+            self.pulled = open(path, 'rb').read() if os.path.exists(path) else None
+            self.pull_dir_created = os.path.exists(top)
+            shutil.rmtree(top, True)
         else:
             path = os.path.join(tmpdir(), 'pulled.bin')
             if os.path.exists(path):
